@@ -12,7 +12,9 @@
     CONVERT, LOAD, STORE, DECLARE, gate applications with modifiers / expression parameters /
     qubits, MEASURE, RESET, DELAY, FENCE, HALT NOP WAIT, LABEL JUMP JUMP-WHEN JUMP-UNLESS, PRAGMA,
     INCLUDE, SET-/SHIFT-FREQUENCY/-PHASE/-SCALE, SWAP-PHASES, PULSE, CAPTURE, RAW-CAPTURE (with
-    the NONBLOCKING prefix, frame identifiers, waveform invocations), CALL. *)
+    the NONBLOCKING prefix, frame identifiers, waveform invocations), CALL; and, as [item]s with
+    their own parser model (the commands ParsePanic.v answers [Unk] for): DEFCAL, DEFCAL MEASURE,
+    DEFCIRCUIT, DEFFRAME, DEFWAVEFORM, DEFGATE (four forms). *)
 From Coq Require Import List NArith ZArith Bool.
 From QV Require Import Model.ParsePanic.
 Import ListNotations.
